@@ -588,6 +588,21 @@ func (f *Frame) specCall(x *SCall, env *SpecEnv) Val {
 				sfail("bigval() used where no big-int heap is in scope")
 			}
 			return Val{T: fmt.Sprintf("(select %s %s)", heap, v.T)}
+		case "update":
+			// update(x, Field, v): the struct value x with one field replaced
+			if len(x.Args) != 3 {
+				sfail("update(x, Field, v) takes three arguments")
+			}
+			fid, ok := x.Args[1].(*SIdent)
+			if !ok {
+				sfail("update: second argument must be a field name")
+			}
+			base := f.specEval(x.Args[0], env)
+			nv := f.specEval(x.Args[2], env)
+			if base.Ty == nil {
+				sfail("update of a mathematical value")
+			}
+			return f.withField(base, fid.Name, nv, nil)
 		case "bitor", "bitand", "bitxor":
 			// 64-bit bitwise operators: the same uninterpreted functions the code's |, &, ^ map to on
 			// non-constant operands (so a clause `r == bitor(a, b)` pins operator and operands, while
